@@ -1047,6 +1047,21 @@ fn h_oracle(ck: &mut Ck, a: &[&str]) {
     } else {
         ck.req("C14", calls.len() == 1 && calls[0].starts_with("H:") || main == "QE", "build() did not invoke the hook exactly once");
     }
+    // C04 on whatever value was handed out (user-written shape: everything except the type string)
+    if let Some(f) = main_fields(main) {
+        ck.req("C04", f[2] != "-", "PURL with an empty name handed out");
+        let q: Vec<(String, String)> = if f[4] == "-" { vec![] } else { f[4].split(';').map(|kv| { let (k, v) = kv.split_once('=').unwrap(); (uh(k), uh(v)) }).collect() };
+        for w in q.windows(2) {
+            ck.req("C04", w[0].0 < w[1].0, "qualifier keys not strictly ascending");
+        }
+        for (k, v) in &q {
+            ck.req("C04", valid_key(k) && !k.bytes().any(|b| b.is_ascii_uppercase()), "qualifier key not valid lower case");
+            ck.req("C04", !v.is_empty(), "qualifier with empty value handed out");
+            if k == "checksum" {
+                ck.req("C04", checksum_canonical(v), "checksum not canonical");
+            }
+        }
+    }
     let hooked = calls.iter().any(|c| c.starts_with("H:"));
     if hooked && hook.contains('f') {
         ck.req("C14", main == "E Hook", "hook error not returned unchanged");
